@@ -52,6 +52,8 @@ EXPECT = {
     'D1': [('FixtureConic::SetScale', '_nrho0')],
     'I1': [('FixtureHarm::T', 'invR')],
     'DSP': [('FixtureHarm::Value', 'Engine<FULL>')],
+    'SW1': [('FixtureLint::Use', 'Cell(m,n)')],
+    'OV1': [('FixtureLint::LengthOk', 'product@')],
     'K7': [('FixtureRaster::probe', 'B1 filepos column')],
     'W1': [('FixtureShared::HalfWritten', 'northp')],
     'X6': [('FixtureShared::Spin', 'loop@')],
@@ -106,6 +108,12 @@ def run_controls(rules):
         elif r == 'DSP':
             from .rules import dispatch
             res = dispatch.rule_DSP(fx)[0]
+        elif r == 'SW1':
+            from .rules import lint
+            res = lint.rule_SW1(fx, None)[0]
+        elif r == 'OV1':
+            from .rules import lint
+            res = lint.rule_OV1(fx, None)[0]
         elif r == 'K7':
             from .rules import geoidbounds
             res = geoidbounds.rule_K7(fx, cls=NS + 'FixtureRaster', entries=('probe',), with_ctor=False)[0]
